@@ -25,6 +25,7 @@ typedef struct run_ctx_s {
 	size_t hdr;                /* bytes of the tape consumed by the config header */
 	uint8_t faults[8];         /* futex fault vector (SEM family) */
 	char alloc_file[32];
+	int sem_enumerate;         /* SEM family: enumerate every placement of <=2 faults for this case */
 } run_ctx;
 static run_ctx *G;
 
@@ -59,27 +60,37 @@ static uint64_t fnv64 (const void *p, size_t n, uint64_t h) {
 #define FAIL(sig_, ...) rt_fail (RT_V_ORACLE, (sig_), __VA_ARGS__)
 
 static nsync_time ns_to_time (int64_t ns) {
-	return (nsync_time_s_ns ((time_t) (ns / 1000000000), (unsigned) (ns % 1000000000)));
+	int64_t s = ns / 1000000000, r = ns % 1000000000;
+	if (r < 0) { r += 1000000000; s -= 1; }   /* normalized: 0 <= nanoseconds < 1e9 also before the epoch */
+	return (nsync_time_s_ns ((time_t) s, (unsigned) r));
 }
 
+#define DL_NO INT64_MIN   /* "no deadline"; every family other than MON only ever sees it or non-negative deadlines */
 #define DL_NONE 0
 #define DL_PAST 1
 #define DL_SOON 2
 #define DL_LATER 3
-/* returns absolute ns, or -1 for no deadline; registers future instants with the clock */
+/* returns absolute ns, or DL_NO for no deadline; registers future instants with the clock */
 static int64_t make_deadline (int kind, int salt) {
 	int64_t now = rt_now_ns ();
 	int64_t d;
 	switch (kind & 3) {
-	case DL_NONE: return (-1);
-	case DL_PAST: return ((salt & 1) ? 0 : now - 1000000000);
+	case DL_NONE: return (DL_NO);
+	case DL_PAST:
+		if (G != NULL && G->prop == P_C15) {
+			/* C15's domain: any past instant, including instants before the epoch */
+			static const int64_t pre[] = { 0, -1, -1000000000, -2147483648LL * 1000000000, INT64_MIN / 2, 1, 1000000000 };
+			if ((salt & 1) == 0) return (now - 1000000000 - (int64_t) (salt >> 1) * 1000);
+			return (pre[(salt >> 1) % 7]);
+		}
+		return ((salt & 1) ? 0 : now - 1000000000);
 	case DL_SOON: d = now + 1000 * (1 + (salt % 3)); break;
 	default: d = now + 1000000 * (1 + (salt % 3)); break;
 	}
 	rt_clock_register (d);
 	return (d);
 }
-static nsync_time dl_time (int64_t d) { return (d < 0 ? nsync_time_no_deadline : ns_to_time (d)); }
+static nsync_time dl_time (int64_t d) { return (d == DL_NO ? nsync_time_no_deadline : ns_to_time (d)); }
 static const char *dl_name (int k) { static const char *n[] = { "none", "past", "soon", "later" }; return (n[k & 3]); }
 
 #include "fam_mon.inc"
@@ -121,7 +132,7 @@ static int verdict_owned (run_ctx *c, const rt_verdict *v) {
 	case RT_V_DEADLOCK: case RT_V_LIVELOCK:
 		switch (c->family) {
 		case FAM_LOCK: case FAM_STARVE: return (prop == P_C02 || (prop == P_C16 && fam_has_debug ()));
-		case FAM_MON: return (prop == P_C02 || prop == P_C04 || prop == P_C05 || prop == P_C06 || (prop == P_C16 && fam_has_debug ()));
+		case FAM_MON: return (prop == P_C02 || prop == P_C04 || prop == P_C05 || prop == P_C06 || prop == P_C15 || (prop == P_C16 && fam_has_debug ()));
 		case FAM_ONCE: return (prop == P_C07);
 		case FAM_NOTE: return (prop == P_C08 || prop == P_C09);
 		case FAM_NOTEFREE: return (prop == P_C09);
@@ -135,7 +146,7 @@ static int verdict_owned (run_ctx *c, const rt_verdict *v) {
 		/* a crash inside a call the property's statement speaks about */
 		switch (c->family) {
 		case FAM_LOCK: case FAM_STARVE: return (prop == P_C01 || prop == P_C02 || prop == P_C14 || prop == P_C16);
-		case FAM_MON: return (prop == P_C01 || prop == P_C02 || prop == P_C04 || prop == P_C05 || prop == P_C06 || prop == P_C16);
+		case FAM_MON: return (prop == P_C01 || prop == P_C02 || prop == P_C04 || prop == P_C05 || prop == P_C06 || prop == P_C16 || prop == P_C15);
 		case FAM_ONCE: return (prop == P_C07);
 		case FAM_NOTE: return (prop == P_C08 || prop == P_C09);
 		case FAM_NOTEFREE: return (prop == P_C09);
@@ -191,6 +202,7 @@ static int pick_family (int prop, unsigned b) {
 	case P_C12: return (FAM_SEM);
 	case P_C13: { static const int f[] = { FAM_REF, FAM_WAITN, FAM_MON, FAM_REF }; return (f[b % 4]); }
 	case P_C14: return (FAM_STARVE);
+	case P_C15: return (FAM_MON);
 	case P_C16: { static const int f[] = { FAM_LOCK, FAM_MON, FAM_DEBUGBUF, FAM_MON }; return (f[b % 4]); }
 	case P_C19: return (FAM_ALLOC);
 	default: return (FAM_MON);
@@ -260,6 +272,27 @@ static void run_common (run_ctx *c, rt_config *cfg, interp_result *res) {
 			if (c->dump != NULL && res->v.kind != RT_V_NONE) D ("failing allocation %d of %d from note.c/counter.c:\n", k, total);
 		}
 		res->sub_nontrivial = nontriv;
+	} else if (c->family == FAM_SEM && c->sem_enumerate) {
+		/* fault_enumeration: for this (program, schedule) every placement of up to 2 injected faults over the
+		   first 6 futex waits x {EINTR, EAGAIN, premature ETIMEDOUT} is executed (1 + 18 + 135 = 154 runs) */
+		int i, j, ki, kj, nontriv = 0;
+		memset (c->faults, 0, sizeof (c->faults));
+		rt_execute (cfg, &hooks, &res->v, &res->st);
+		res->sub_evaluations = 1;
+		for (i = 0; i < 6 && res->v.kind == RT_V_NONE; i++) for (ki = 1; ki <= 3 && res->v.kind == RT_V_NONE; ki++) {
+			memset (c->faults, 0, sizeof (c->faults)); c->faults[i] = (uint8_t) ki;
+			rt_execute (cfg, &hooks, &res->v, &res->st); G = c;
+			res->sub_evaluations++;
+			if (res->st.faults_injected > 0) nontriv++;
+			for (j = i + 1; j < 6 && res->v.kind == RT_V_NONE; j++) for (kj = 1; kj <= 3 && res->v.kind == RT_V_NONE; kj++) {
+				memset (c->faults, 0, sizeof (c->faults)); c->faults[i] = (uint8_t) ki; c->faults[j] = (uint8_t) kj;
+				rt_execute (cfg, &hooks, &res->v, &res->st); G = c;
+				res->sub_evaluations++;
+				if (res->st.faults_injected > 1) nontriv++;
+			}
+		}
+		res->sub_nontrivial = nontriv;
+		if (c->dump != NULL && res->v.kind != RT_V_NONE) D ("enumerated fault placement: %d %d %d %d %d %d (1 EINTR, 2 EAGAIN, 3 early ETIMEDOUT)\n", c->faults[0], c->faults[1], c->faults[2], c->faults[3], c->faults[4], c->faults[5]);
 	} else {
 		rt_execute (cfg, &hooks, &res->v, &res->st);
 	}
